@@ -8,6 +8,24 @@ use crate::runner::*;
 
 pub struct C01;
 
+/// A cloud that fills several real (64 KiB) data packets with records of different odd bit
+/// widths: every stream carries another partial byte from packet to packet, so packet lengths
+/// vary in their residue modulo 4 right below the 64 KiB limit (library packet capacity only).
+pub fn mixed_width_cloud(g: &mut Rng) -> Call {
+    use crate::model::*;
+    let k = 3 + g.usize_below(3);
+    let mut proto: Vec<Rec> = Vec::new();
+    for i in 0..k {
+        let bits = *g.pick(&[1u32, 2, 3, 5, 7, 9, 11, 13, 16, 19, 24]);
+        let min = *g.pick(&[0i64, -1, -100, 1000]);
+        let max = min + ((1i64 << bits) - 1);
+        let name = if i < 3 { Name::Std(i as u8) } else { Name::Std([std_name::INT, std_name::ROW, std_name::COL][i - 3]) };
+        proto.push(Rec { name, dt: DType::Int { min, max } });
+    }
+    let n = *g.pick(&[40_000usize, 66_000, 100_000, 140_000]);
+    Call::Pc { guid: gen_guid(g), proto, steps: vec![PcStep::Points { n, seed: g.next_u64() }], end: SubEnd::Finalize }
+}
+
 pub fn gen_case(rc: &RunCtx, blob_heavy: bool, nasty: bool) -> WriterCase {
     let mut g = Rng::stream(rc.run_seed, "cfg");
     // every 64th run uses the library's own packet capacity with multi-packet clouds
@@ -37,6 +55,10 @@ pub fn gen_case(rc: &RunCtx, blob_heavy: bool, nasty: bool) -> WriterCase {
         let n = *g.pick(&[100_000usize, 140_000, 200_000]);
         prog.knob = None;
         prog.calls.push(Call::Pc { guid: gen_guid(&mut g), proto, steps: vec![PcStep::Points { n, seed: g.next_u64() }], end: SubEnd::Finalize });
+    }
+    if rc.index % 64 == 31 {
+        prog.knob = None;
+        prog.calls.push(mixed_width_cloud(&mut g));
     }
     if rc.index % 512 == 383 {
         // hundreds of constant (zero-width) extension records next to sized ones, enough points to
